@@ -8,8 +8,8 @@ import (
 	"go/ast"
 )
 
-// sliceBound extracts the low/high bound of the k-th slice expression x[lo:hi] in a function.
-func sliceBound(x string, k int, which string) func(c *Ctx, s *Site) (string, error) {
+// combSliceBound extracts the low/high bound of the k-th slice expression x[lo:hi] in a function.
+func combSliceBound(x string, k int, which string) func(c *Ctx, s *Site) (string, error) {
 	return func(c *Ctx, s *Site) (string, error) {
 		fd, err := c.FindFunc(s.Pkg, s.Func)
 		if err != nil {
@@ -84,7 +84,7 @@ func init() {
 		ex(it, "Last", "itLastShort", "if[2].cond", "Bool", I("i", "n"), lastVars),
 		ex(it, "Last", "itLastRotGuard", "if[3].cond", "Bool", I("n"), lastVars),
 		ex(it, "Last", "itLastIdx", "assign[idx][0].rhs", "Int", I("i", "n"), lastVars),
-		Site{Module: mod, Pkg: it, Func: "Last", Name: "itLastSplit", Kind: Custom, Params: I("n", "idx"), Vars: lastVars, Custom: sliceBound("out", 0, "lo")},
+		Site{Module: mod, Pkg: it, Func: "Last", Name: "itLastSplit", Kind: Custom, Params: I("n", "idx"), Vars: lastVars, Custom: combSliceBound("out", 0, "lo")},
 		// combinators
 		ex(it, "chunkIterator.Next", "itChunkFull", "if[1].cond", "Bool", I("len", "size"), map[string]string{"len(chunk)": "len", "iter.chunkSize": "size"}),
 		ex(it, "chunkIterator.Next", "itChunkFlush", "if[2].cond", "Bool", I("len"), map[string]string{"len(chunk)": "len"}),
@@ -118,7 +118,7 @@ func init() {
 		ex(st, "Last", "stLastShort", "if[3].cond", "Bool", I("i", "n"), lastVars),
 		ex(st, "Last", "stLastRotGuard", "if[4].cond", "Bool", I("n"), lastVars),
 		ex(st, "Last", "stLastIdx", "assign[idx][0].rhs", "Int", I("i", "n"), lastVars),
-		Site{Module: mod, Pkg: st, Func: "Last", Name: "stLastSplit", Kind: Custom, Params: I("n", "idx"), Vars: lastVars, Custom: sliceBound("out", 0, "lo")},
+		Site{Module: mod, Pkg: st, Func: "Last", Name: "stLastSplit", Kind: Custom, Params: I("n", "idx"), Vars: lastVars, Custom: combSliceBound("out", 0, "lo")},
 		// combinators: flags
 		ex(st, "chunkStream.Next", "stChunkFull", "if[2].cond", "Bool", I("len", "size"), map[string]string{"len(s.chunk)": "len", "s.chunkSize": "size"}),
 		ex(st, "chunkStream.Next", "stChunkFlush", "if[3].cond", "Bool", I("len"), map[string]string{"len(s.chunk)": "len"}),
